@@ -166,3 +166,78 @@ Proof.
   - destruct IHHt as [(v & E & Hv)|E]; [|right; rewrite E; reflexivity]. rewrite E.
     left. eexists; split; [reflexivity|left; reflexivity].
 Qed.
+
+(* ---- decimal rendering and parsing are inverse ---- *)
+Local Open Scope Z_scope.
+
+Lemma parse_digits_app a b acc : (forall x, In x a -> is_digit x = true) ->
+  parse_digits (a ++ b) acc = parse_digits b (fold_left (fun z d => z * 10 + Z.of_N (d - 48)) a acc).
+Proof.
+  revert acc. induction a as [|x a IH]; intros acc H; cbn [app parse_digits fold_left]; [reflexivity|].
+  rewrite (H x (or_introl eq_refl)). apply IH. intros y Hy. apply H. right. exact Hy.
+Qed.
+
+From Coq Require Import ZifyN ZifyNat ZifyBool.
+Ltac Zify.zify_post_hook ::= Z.div_mod_to_equations.
+
+Lemma is_digit_of n : is_digit (48 + N.modulo n 10) = true.
+Proof. unfold is_digit. assert (N.modulo n 10 < 10)%N by (apply N.mod_lt; discriminate). lia. Qed.
+
+
+Lemma digits_fuel_parse f : forall n acc a, (n < 10 ^ N.of_nat f)%N ->
+  exists k : Z, 0 <= k /\ parse_digits (digits_fuel f n acc) a = parse_digits acc (a * 10 ^ k + Z.of_N n).
+Proof.
+  induction f as [|f IH]; intros n acc a Hn.
+  - cbn in Hn. exists 0. split; [lia|]. cbn [digits_fuel]. assert (n = 0)%N by lia. subst. f_equal; try lia.
+  - cbn [digits_fuel]. set (d := (48 + N.modulo n 10)%N). set (q := N.div n 10).
+    assert (Hd : is_digit d = true) by apply is_digit_of.
+    assert (Hdv : Z.of_N (d - 48) = Z.of_N n mod 10) by (unfold d; lia).
+    destruct (N.eqb_spec q 0) as [Eq|Eq].
+    + exists 1. split; [lia|]. cbn [parse_digits]. rewrite Hd. f_equal. unfold q in Eq. rewrite Hdv. lia.
+    + assert (Hq : (q < 10 ^ N.of_nat f)%N).
+      { unfold q. rewrite Nnat.Nat2N.inj_succ, N.pow_succ_r' in Hn. apply N.div_lt_upper_bound; [discriminate|]. lia. }
+      destruct (IH q (d :: acc) a Hq) as (k & Hk & E). exists (k + 1). split; [lia|].
+      rewrite E. cbn [parse_digits]. rewrite Hd. f_equal. rewrite Hdv, Z.pow_add_r by lia. unfold q. lia.
+Qed.
+
+Lemma digits_fuel_head f : forall n acc, f <> O -> exists d rest, digits_fuel f n acc = d :: rest /\ is_digit d = true.
+Proof.
+  induction f as [|f IH]; intros n acc Hf; [congruence|]. cbn [digits_fuel].
+  destruct (N.eqb _ 0).
+  - eexists _, _. split; [reflexivity|apply is_digit_of].
+  - destruct f as [|f'].
+    + cbn [digits_fuel]. eexists _, _. split; [reflexivity|apply is_digit_of].
+    + apply IH. discriminate.
+Qed.
+
+Lemma log2_fuel p : (Npos p < 10 ^ N.of_nat (S (N.to_nat (N.log2 (Npos p)))))%N.
+Proof.
+  rewrite Nnat.Nat2N.inj_succ, Nnat.N2Nat.id.
+  pose proof (N.log2_spec (Npos p) eq_refl) as [_ H].
+  eapply N.lt_le_trans; [exact H|]. apply N.pow_le_mono_l. lia.
+Qed.
+
+Lemma atoi_body_pos p : exists d rest, itoa_N (Npos p) = d :: rest /\ is_digit d = true /\ parse_digits (itoa_N (Npos p)) 0 = Some (Zpos p).
+Proof.
+  unfold itoa_N. destruct (digits_fuel_head (S (N.to_nat (N.log2 (Npos p)))) (Npos p) [] ltac:(discriminate)) as (d & rest & E & Hd).
+  exists d, rest. split; [exact E|]. split; [exact Hd|].
+  destruct (digits_fuel_parse _ (Npos p) [] 0 (log2_fuel p)) as (k & Hk & Ep). rewrite Ep. cbn [parse_digits]. f_equal; try lia.
+Qed.
+
+Theorem atoi_itoa z : in_int64 z = true -> atoi (itoa_Z z) = Some z.
+Proof.
+  intros Hz. destruct z as [|p|p]; cbn [itoa_Z].
+  - reflexivity.
+  - destruct (atoi_body_pos p) as (d & rest & E & Hd & Hp). unfold atoi. rewrite E in *.
+    assert (d <> 43 /\ d <> 45)%N as [H1 H2] by (unfold is_digit in Hd; lia).
+    destruct d as [|dp]; [unfold is_digit in Hd; lia|].
+    destruct (N.eqb_spec (Npos dp) 43); [congruence|]. destruct (N.eqb_spec (Npos dp) 45); [congruence|].
+    assert (Hb : (match parse_digits (Npos dp :: rest) 0 with
+                  | Some v => let z := 1 * v in if in_int64 z then Some z else None | None => None end) = Some (Zpos p)).
+    { rewrite Hp. cbn zeta. replace (1 * Z.pos p) with (Z.pos p) by lia. rewrite Hz. reflexivity. }
+    repeat match goal with |- context [match ?x with _ => _ end] => is_var x; destruct x end; try exact Hb; try lia.
+    all: try exact Hb.
+  - destruct (atoi_body_pos p) as (d & rest & E & Hd & Hp). unfold atoi. cbn [N.eqb].
+    change (45%N :: itoa_N (N.pos p)) with (45%N :: itoa_N (N.pos p)).
+    rewrite E in *. rewrite Hp. cbn zeta. replace (-1 * Z.pos p) with (Z.neg p) by lia. rewrite Hz. reflexivity.
+Qed.
